@@ -1543,6 +1543,22 @@ func (styleFor StyleFor) SetPageComputedStylesT(pageType utils.PageElement, html
 	}
 }
 
+// Return the fallback of a var() function: the tokens following the custom
+// property name and its comma. The fallback may itself contain commas.
+func varFallback(fn pa.FunctionBlock) []Token {
+	args := pa.RemoveWhitespace(fn.Arguments)
+	for i, arg := range args {
+		if _, isName := arg.(pa.Ident); isName {
+			fallback := args[i+1:]
+			if len(fallback) != 0 && pa.IsLiteral(fallback[0], ",") {
+				fallback = fallback[1:]
+			}
+			return fallback
+		}
+	}
+	return nil
+}
+
 // Return tokens with resolved CSS variables, or nil if [token]
 // does not contain any var().
 // [visited] is the set of the custom properties being resolved: if one
@@ -1572,7 +1588,7 @@ func resolveVar(computed map[string]pr.RawTokens, token Token, visited utils.Set
 
 	_, args := pa.ParseFunction(token)
 	// first arg is name, next args are default value
-	varNameToken, default_ := args[0], args[1:]
+	varNameToken, default_ := args[0], varFallback(fn)
 	variableName := varNameToken.(pa.Ident).Value
 
 	source := default_
